@@ -169,6 +169,39 @@ thin_triples! {
     r2p_thin_r2_r1_a1 2, 1, 1; r2p_thin_r3_r0_a0 3, 0, 0; r2p_thin_r0_r2_a2 0, 2, 2;
 }
 
+/// Inexact size hint `(R - yielded, None)` over A real items: the lower bound may over- or under-claim. `collect`
+/// takes its growable-buffer branch, which must not believe the bound either.
+struct LooseLiar<const R: usize, const A: usize>(Liar<R, R, A>);
+impl<const R: usize, const A: usize> Iterator for LooseLiar<R, A> {
+    type Item = Dt;
+    fn next(&mut self) -> Option<Dt> {
+        self.0.next()
+    }
+    fn size_hint(&self) -> (usize, Option<usize>) {
+        (R.saturating_sub(self.0.i), None)
+    }
+}
+fn lying_collect_loose<const R: usize, const A: usize>(unique: bool) {
+    let it = Liar::<R, R, A>::new();
+    let vals = it.vals;
+    kani::cover!(true, "constructor reached");
+    let a: Arc<[Dt]> = if unique { LooseLiar(it).collect::<UniqueArc<[Dt]>>().shareable() } else { LooseLiar(it).collect() };
+    assert!(a.len() == A, "collect (inexact hint) returned a handle whose length is not what the iterator yielded");
+    for i in 0..A {
+        assert!(a[i].id == 1 + i as u8 && a[i].v == vals[i]);
+    }
+    assert!(ledger_zero() && Arc::count(&a) == 1);
+    drop(a);
+    assert!(ledger_is(1, A + 1) && n_live() == 0);
+}
+hp!(qp_collect_loose_r2_a1, lying_collect_loose::<2, 1>(false));
+hp!(qp_collect_loose_r1_a0, lying_collect_loose::<1, 0>(true));
+hp!(r0p_collect_loose_r3_a2, lying_collect_loose::<3, 2>(false));
+hp!(r1p_collect_loose_r1_a2, lying_collect_loose::<1, 2>(true));
+hp!(r2p_collect_loose_r2_a2, lying_collect_loose::<2, 2>(false));
+hp!(tp_collect_loose_r3_a0, lying_collect_loose::<3, 0>(false));
+hp!(tp_collect_loose_r0_a2, lying_collect_loose::<0, 2>(true));
+
 fn lying_collect<const R1: usize, const R2: usize, const A: usize>(unique: bool) {
     let it = Liar::<R1, R2, A>::new();
     let vals = it.vals;
